@@ -820,4 +820,25 @@ theorem mem_monthDays (months : List Int) (x : Int) :
   · rintro ⟨m, hm, d, hd, rfl⟩; exact ⟨m, hm, d, hd, rfl⟩
   · rintro ⟨m, hm, d, hd, rfl⟩; exact ⟨m, hm, d, hd, rfl⟩
 
+/-! ### `int(T / c)` -/
+
+theorem floor_div_nat (T c : Nat) (hc : 0 < c) :
+    Rat.floor (((T : Int) : Rat) / ((c : Int) : Rat)) = ((T / c : Nat) : Int) := by
+  have hcq : (0 : Rat) < ((c : Int) : Rat) := by
+    have : ((0 : Int) : Rat) < ((c : Int) : Rat) := Rat.intCast_lt_intCast.mpr (by omega)
+    simpa using this
+  have hci : (0 : Int) < (c : Int) := by omega
+  have hk : ((T / c : Nat) : Int) = (T : Int) / (c : Int) := by simp
+  rw [hk]
+  apply Int.le_antisymm
+  · -- floor < k + 1
+    have : Rat.floor (((T : Int) : Rat) / ((c : Int) : Rat)) < (T : Int) / (c : Int) + 1 := by
+      rw [Rat.floor_lt_iff, Rat.div_lt_iff hcq, ← Rat.intCast_mul, Rat.intCast_lt_intCast]
+      exact Int.lt_ediv_add_one_mul_self _ hci
+    omega
+  · apply Int.not_lt.mp
+    rw [Rat.floor_lt_iff, Rat.div_lt_iff hcq, ← Rat.intCast_mul, Rat.intCast_lt_intCast]
+    have := Int.ediv_mul_le (T : Int) (Int.ne_of_gt hci)
+    omega
+
 end Pyunicorn.Window
